@@ -34,6 +34,7 @@ class Stats(object):
         self.lit_agree = 0
         self.lit_total = 0
         self.model_err_only = 0
+        self.drift = 0
 
     def count(self, line, ro, mo):
         self.steps += 1
@@ -148,6 +149,7 @@ def main():
     allh = corpus + hists
     diffs = []
     core.PAIR_CHECK = getattr(mod, 'pair_check', None)
+    core.MUST_REJECT = getattr(mod, 'must_reject', None)
     CH = 200
     for i in range(0, len(allh), CH):
         diffs += [(i + d.hist_index, d) for d in core.check_histories(allh[i:i + CH], stats, pair_check=core.PAIR_CHECK)]
@@ -237,6 +239,7 @@ def main():
             'samples': samples,
             'steps_compared': stats.steps,
             'discarded_inexact': stats.discarded,
+            'model_rejects_impl_accepts_drift': stats.drift,
             'literal_state_agreement': (stats.lit_agree / stats.lit_total) if stats.lit_total else None,
             'state_exports_checked_by_lean': stats.lit_total,
             'distribution': {'ops': dict(stats.ops), 'kinds': dict(stats.kinds), 'error_kinds': dict(stats.errs)},
